@@ -420,7 +420,7 @@ def chunk(payload):
 
 RULE = ("api: LPs (small random/degenerate, planted 10-25 and 30-60 rows) solved by mpq_QSopt_primal/dual under every pricing rule and stopped at iteration limits "
         "1..89 (continued in slices), at optimality, and after QSopt_pivotin_row/col; every row of B^-1 and every tableau row (public API and direct ILLlib_tableau when no "
-        "cache exists) is multiplied back exactly against [A | logicals] in the reported basis order; lu: ludrive drives ILLfactor/ftran/btran/ftran_update+update on "
+        "cache exists; also in states without a loaded simplex basis: must refuse or answer exactly) is multiplied back exactly against [A | logicals] in the reported basis order; lu: ludrive drives ILLfactor/ftran/btran/ftran_update+update on "
         "random structured matrices (triangular, singleton-rich, dense, near-singular, exactly singular) with 1-120 column replacements, eta limits and space "
         "multipliers forcing refactorization, singular replacements; Python keeps the current matrix and checks every solve and every singularity verdict exactly; "
         "non-trivial = case with >=1 checked tableau resp. script run; distinct = hash(script)")
